@@ -1,12 +1,14 @@
 SPECIFICATION FairSpec
 CONSTANTS
-  Scenarios <- QuickScenarios
+  Scenarios <- LiveScenarios
   Ticks = FALSE
   SkipFix = TRUE
   CctFix = FALSE
+  SelfFailFix = FALSE
   QMax = 100
   PPInterval = 2
   TestMode = TRUE
+  FaultKinds <- NoFaults
   MaxEternal = 1
 PROPERTY NoHang
 CHECK_DEADLOCK FALSE
